@@ -9,7 +9,8 @@ from symex import Sym, Unsupported
 from facts import AnalysisBroken
 import contracts
 
-# class -> components that determine a value (accessor spellings as they appear in terms)
+# class -> components that determine a value: for the classes that hold data members the members themselves are
+# read from the class (the names below only document today's spelling); for the abstract ones the accessors
 COMPONENTS = {
     'ipr::Logogram': ['operand'],
     'ipr::Linkage': ['lang'],
@@ -46,6 +47,9 @@ def check_equalities(ck, F, rule_prefix):
     S = Sym(F, opaque=contracts.default_opaque(F))
     for cls, comps in COMPONENTS.items():
         F.need_rec(cls)
+        own = [fl['name'] for fl in F.rec[cls]['fields']]
+        if own:
+            comps = own          # a value class with data members: every member is a component (whatever it is called)
         eqs = [f for f in F.fns_in(cls) if f['name'] == 'operator==' and len(f['params']) == 1]
         if not eqs:
             # defaulted comparison with no synthesised body in any unit: judged from the declaration
